@@ -497,3 +497,61 @@ func operandSlice(v ssa.Value, visit func(ssa.Value) bool) {
 	}
 	walk(v, 0)
 }
+
+// ---------------------------------------------------------------------------------------------
+// C12/R10 number-mangling-splits-off-exponent.
+//
+// mangleNumber shortens the text of a CSS number: it strips trailing zeros of the fraction and the
+// zero before the point. A number may carry an exponent (`1.50e10`); its digits are not fraction
+// digits, and stripping "trailing zeros" of the whole text turns `1.5e10px` into `1.5e1px`. Rule: the
+// loop that strips `0` bytes from the end is dominated by a search for the exponent marker (the
+// text it works on is what precedes the marker).
+func c12NumberExponent(p *Prog) *RuleResult {
+	r := NewRule("C12/R10 number-mangling-splits-off-exponent", "mangleNumber strips trailing zeros only from the part of the number before an exponent marker")
+	fn := p.FindFunc("css_parser.mangleNumber")
+	if !r.Anchor("css_parser.mangleNumber", fn != nil) {
+		return r
+	}
+	var strip *ssa.BasicBlock
+	for _, b := range fn.Blocks {
+		if !blockInLoop(b) {
+			continue
+		}
+		for _, in := range b.Instrs {
+			if bo, ok := in.(*ssa.BinOp); ok && (bo.Op == token.EQL || bo.Op == token.NEQ) {
+				if k, ok := constInt(bo.Y); ok && k == '0' {
+					strip = b
+				}
+			}
+		}
+	}
+	if !r.Anchor("the loop of mangleNumber that strips `0` bytes", strip != nil) {
+		return r
+	}
+	r.Instances++
+	key := "mangleNumber strips trailing zeros before the exponent only"
+	found := false
+	eachInstr(fn, func(b *ssa.BasicBlock, in ssa.Instruction) {
+		c, ok := in.(*ssa.Call)
+		if !ok || !strings.HasPrefix(calleeFullName(c), "strings.") || len(c.Call.Args) < 2 {
+			return
+		}
+		marker := false
+		if s, ok := constString(c.Call.Args[1]); ok && strings.ContainsAny(s, "eE") {
+			marker = true
+		}
+		if k, ok := constInt(c.Call.Args[1]); ok && (k == 'e' || k == 'E') {
+			marker = true
+		}
+		if marker && (b == strip || b.Dominates(strip)) {
+			found = true
+		}
+	})
+	if found {
+		r.OK(key, true, "the zero-stripping loop is dominated by a search for the exponent marker")
+	} else {
+		r.Fail(key, p.Pos(firstPos(strip)), "trailing `0` bytes are stripped from the whole number text without looking for an exponent: `1.5e10px` becomes `1.5e1px` and `1.50e20px` becomes `1.50e2px` — a different value")
+	}
+	r.Floor(1)
+	return r
+}
